@@ -28,6 +28,25 @@ pub enum Wire {
     Json,
 }
 
+#[derive(Clone, Copy, Debug, PartialEq, Eq, PartialOrd, Ord, Serialize, Deserialize)]
+pub enum TimeApi {
+    /// `caps.time.notify_*(.., callback)`
+    CapabilityCallback,
+    /// `caps.time.notify_*_async(..)` awaited through Compose
+    CapabilityAsync,
+    /// `crux_time::command::Time::notify_*(..)`
+    Command,
+}
+
+impl TimeApi {
+    fn group(self) -> &'static str {
+        match self {
+            TimeApi::Command => "command-api",
+            _ => "capability-api",
+        }
+    }
+}
+
 #[derive(Clone, Debug, PartialEq, Eq, PartialOrd, Ord, Serialize, Deserialize)]
 pub enum Case {
     /// `Duration::new(nanos)`
@@ -54,6 +73,15 @@ pub enum Case {
     InstantToDateTime { secs: u64, nanos: u32, wire: Wire },
     /// `Instant::try_from(DateTime::from_timestamp(secs, nanos))`, and back
     DateTimeToInstant { secs: i64, nanos: u32 },
+    /// payload site: the real `notify_after(std::time::Duration::new(secs, nanos))` of one API;
+    /// the `TimeRequest::NotifyAfter` it emits must carry exactly that duration
+    NotifyAfterSite { secs: u64, nanos: u32, api: TimeApi },
+    /// payload site: the real `notify_at(UNIX_EPOCH +/- Duration::new(secs, nanos))` of one API;
+    /// the `TimeRequest::NotifyAt` it emits must carry exactly that instant
+    NotifyAtSite { secs: u64, nanos: u32, before_epoch: bool, api: TimeApi },
+    /// payload site the other way: the command API's `Time::now()` answered with a
+    /// `TimeResponse::Now` whose Instant came from the wire; the SystemTime handed to the app
+    NowSite { secs: u64, nanos: u32, wire: Wire },
     /// `serde_json::from_str::<Duration>({"nanos": <text>})`
     JsonToDuration { text: String },
     /// `serde_json::from_str::<Instant>({"seconds": <seconds>, "nanos": <nanos>})`
@@ -74,6 +102,7 @@ impl Case {
             Case::TimeDeltaToDuration { secs, nanos } | Case::DateTimeToInstant { secs, nanos } => {
                 *secs == 0 && *nanos == 0
             }
+            Case::NotifyAfterSite { secs, nanos, .. } | Case::NotifyAtSite { secs, nanos, .. } | Case::NowSite { secs, nanos, .. } => *secs == 0 && *nanos == 0,
             Case::JsonToDuration { text } => text == "0",
             Case::JsonToInstant { seconds, nanos } => seconds == "0" && nanos == "0",
         }
@@ -201,9 +230,12 @@ pub fn judge(conv: &'static str, input: &str, e: &Expect, got: &Got) -> Check {
                 let carried = matches!((&e.exact, v), (a, b) if a.ord() == b.ord() && a != b);
                 let kept = &e.exact == v;
                 let key = if e.reason == "invalid-subsec" {
-                    let baseline_is_kept = conv != "instant-to-systemtime";
+                    // `Time::now()` of the command API goes through From<Instant> for SystemTime:
+                    // same conversion, same finding
+                    let to_systemtime = conv == "instant-to-systemtime" || conv == "time-now-site/command-api";
+                    let baseline_is_kept = !to_systemtime;
                     if (baseline_is_kept && kept) || (!baseline_is_kept && carried) {
-                        format!("instant/subsec-unchecked/{conv}")
+                        format!("instant/subsec-unchecked/{}", if to_systemtime { "instant-to-systemtime" } else { conv })
                     } else if carried {
                         format!("{}/subsec-carried", named(conv))
                     } else {
@@ -600,6 +632,73 @@ pub fn run_case(case: &Case, t: &mut Trace) -> CaseResult {
                 })));
             }
         }
+        Case::NotifyAfterSite { secs, nanos, api } => {
+            let Ok(d) = catch(|| StdDuration::new(secs, nanos)) else { return nc };
+            let exact = d.as_secs() as i128 * NPS + d.subsec_nanos() as i128;
+            let e = Expect { exact: Repr::Nanos(exact), representable: exact <= U64MAX, reason: "out-of-range" };
+            let conv = if api.group() == "command-api" { "notify-after-site/command-api" } else { "notify-after-site/capability-api" };
+            fwd!(conv, e, lift(attempt(|| match emitted_time_request(api, Ask::After(d))? {
+                crux_time::TimeRequest::NotifyAfter { duration, .. } => Ok(Repr::Nanos(dur_nanos(&duration) as i128)),
+                other => Err(format!("emitted {other:?} instead of NotifyAfter")),
+            })));
+        }
+        Case::NotifyAtSite { secs, nanos, before_epoch, api } => {
+            if nanos as i128 >= NPS {
+                return nc;
+            }
+            let d = StdDuration::new(secs, nanos);
+            let st = if before_epoch { SystemTime::UNIX_EPOCH.checked_sub(d) } else { SystemTime::UNIX_EPOCH.checked_add(d) };
+            let Some(st) = st else { return nc };
+            let total = secs as i128 * NPS + nanos as i128;
+            let e = if before_epoch && total != 0 {
+                Expect { exact: Repr::Nanos(-total), representable: false, reason: "negative" }
+            } else {
+                Expect { exact: Repr::Pair(secs as i128, nanos as i128), representable: true, reason: "" }
+            };
+            let conv = if api.group() == "command-api" { "notify-at-site/command-api" } else { "notify-at-site/capability-api" };
+            fwd!(conv, e, lift(attempt(|| match emitted_time_request(api, Ask::At(st))? {
+                crux_time::TimeRequest::NotifyAt { instant, .. } => {
+                    let (s, n) = inst_parts(&instant);
+                    Ok(Repr::Pair(s as i128, n as i128))
+                }
+                other => Err(format!("emitted {other:?} instead of NotifyAt")),
+            })));
+        }
+        Case::NowSite { secs, nanos, wire } => {
+            let inst = match mk_instant(secs, nanos, wire) {
+                Ok(i) => i,
+                Err(_) => return nc,
+            };
+            let valid = (nanos as i128) < NPS;
+            let fits = valid && SystemTime::UNIX_EPOCH.checked_add(StdDuration::new(secs, nanos)).is_some();
+            let e = Expect { exact: Repr::Pair(secs as i128, nanos as i128), representable: fits, reason: if valid { "out-of-range" } else { "invalid-subsec" } };
+            fwd!("time-now-site/command-api", e, lift(attempt(|| {
+                use time_app::{Effect, Event};
+                enum Out {
+                    Now(SystemTime),
+                    Other,
+                }
+                let mut got = vec![];
+                {
+                    let mut cmd = crux_time::command::Time::<Effect, Out>::now().then_send(Out::Now);
+                    let mut effects: Vec<Effect> = cmd.effects().collect();
+                    if effects.len() != 1 {
+                        return Err(format!("{} effects for now()", effects.len()));
+                    }
+                    let Effect::Time(mut req) = effects.remove(0);
+                    req.resolve(crux_time::TimeResponse::Now { instant: inst }).map_err(|e| format!("{e:?}"))?;
+                    got.extend(cmd.events());
+                }
+                let _ = (Out::Other, std::marker::PhantomData::<Event>);
+                match got.as_slice() {
+                    [Out::Now(t)] => match t.duration_since(SystemTime::UNIX_EPOCH) {
+                        Ok(d) => Ok(Repr::Pair(d.as_secs() as i128, d.subsec_nanos() as i128)),
+                        Err(e) => Ok(Repr::Nanos(-(e.duration().as_nanos() as i128))),
+                    },
+                    _ => Err(format!("{} events for one now() response", got.len())),
+                }
+            })));
+        }
         Case::JsonToDuration { text } => {
             let doc = format!("{{\"nanos\": {text}}}");
             let e = match text.parse::<i128>() {
@@ -634,6 +733,121 @@ pub fn run_case(case: &Case, t: &mut Trace) -> CaseResult {
 }
 
 // ---------------------------------------------------------------------------------------------
+// Payload sites: where an app-given std value becomes a protocol value inside crux_time's APIs
+
+mod time_app {
+    use std::time::{Duration, SystemTime};
+
+    use crux_core::compose::Compose;
+    use crux_core::macros::Effect;
+    use crux_core::Command;
+    use crux_time::{Time, TimeResponse};
+    use serde::Serialize;
+
+    use super::TimeApi;
+
+    pub enum Event {
+        After(TimeApi, Duration),
+        At(TimeApi, SystemTime),
+        Got(TimeResponse),
+    }
+
+    #[derive(Default)]
+    pub struct Model;
+
+    #[derive(Serialize)]
+    pub struct ViewModel;
+
+    #[derive(Effect)]
+    pub struct Capabilities {
+        pub time: Time<Event>,
+        #[effect(skip)]
+        pub compose: Compose<Event>,
+    }
+
+    #[derive(Default)]
+    pub struct TimeApp;
+
+    impl crux_core::App for TimeApp {
+        type Event = Event;
+        type Model = Model;
+        type ViewModel = ViewModel;
+        type Capabilities = Capabilities;
+        type Effect = Effect;
+
+        fn update(&self, event: Event, _model: &mut Model, caps: &Capabilities) -> Command<Effect, Event> {
+            match event {
+                Event::After(TimeApi::CapabilityCallback, d) => {
+                    caps.time.notify_after(d, Event::Got);
+                }
+                Event::After(TimeApi::CapabilityAsync, d) => {
+                    let (fut, _id) = caps.time.notify_after_async(d);
+                    caps.compose.spawn(|ctx| async move { ctx.update_app(Event::Got(fut.await)) });
+                }
+                Event::At(TimeApi::CapabilityCallback, t) => {
+                    caps.time.notify_at(t, Event::Got);
+                }
+                Event::At(TimeApi::CapabilityAsync, t) => {
+                    let (fut, _id) = caps.time.notify_at_async(t);
+                    caps.compose.spawn(|ctx| async move { ctx.update_app(Event::Got(fut.await)) });
+                }
+                // the command API is driven on a directly held command, not through the app
+                Event::After(TimeApi::Command, _) | Event::At(TimeApi::Command, _) | Event::Got(_) => {}
+            }
+            Command::done()
+        }
+
+        fn view(&self, _model: &Model) -> ViewModel {
+            ViewModel
+        }
+    }
+}
+
+enum Ask {
+    After(StdDuration),
+    At(SystemTime),
+}
+
+/// Calls the real API and returns the one `TimeRequest` it emits.
+fn emitted_time_request(api: TimeApi, ask: Ask) -> Result<crux_time::TimeRequest, String> {
+    use crux_core::testing::AppTester;
+    use time_app::{Effect, Event, TimeApp};
+    type Cmd = crux_time::command::Time<Effect, Event>;
+    let mut effects: Vec<Effect> = match api {
+        TimeApi::Command => match ask {
+            Ask::After(d) => {
+                let (builder, handle) = Cmd::notify_after(d);
+                let mut cmd = builder.then_send(|_| Event::Got(crux_time::TimeResponse::Cleared { id: crux_time::TimerId(0) }));
+                let e: Vec<Effect> = cmd.effects().collect();
+                drop(handle);
+                e
+            }
+            Ask::At(t) => {
+                let (builder, handle) = Cmd::notify_at(t);
+                let mut cmd = builder.then_send(|_| Event::Got(crux_time::TimeResponse::Cleared { id: crux_time::TimerId(0) }));
+                let e: Vec<Effect> = cmd.effects().collect();
+                drop(handle);
+                e
+            }
+        },
+        _ => {
+            let app = AppTester::<TimeApp>::default();
+            let mut model = time_app::Model;
+            let ev = match ask {
+                Ask::After(d) => Event::After(api, d),
+                Ask::At(t) => Event::At(api, t),
+            };
+            app.update(ev, &mut model).effects
+        }
+    };
+    if effects.len() != 1 {
+        return Err(format!("{} effects emitted, expected exactly one time request", effects.len()));
+    }
+    let Effect::Time(req) = effects.remove(0);
+    Ok(req.operation.clone())
+}
+
+// ---------------------------------------------------------------------------------------------
 // Lattice
 
 pub struct Lattice {
@@ -643,6 +857,11 @@ pub struct Lattice {
     pub i64s: Vec<i64>,
     pub nanos: Vec<u32>,
     pub json_ints: Vec<String>,
+    /// the same bases with a narrower window, for the payload sites (each case builds a command
+    /// or an app)
+    pub site_window: u64,
+    pub site_secs: Vec<u64>,
+    pub site_nanos: Vec<u32>,
 }
 
 pub fn lattice(tier: Tier) -> Lattice {
@@ -721,7 +940,19 @@ pub fn lattice(tier: Tier) -> Lattice {
     json_ints.push("0.5".into());
     json_ints.push("\"7\"".into());
     json_ints.push("null".into());
-    Lattice { window: w as u64, bases, u64s, i64s: i64s.into_iter().collect(), nanos, json_ints }
+    let sw: i128 = tier.pick(2, 6);
+    let mut site = BTreeSet::new();
+    for (_, b) in &bases {
+        for d in -sw..=sw {
+            let v = b + d;
+            if (0..=U64MAX).contains(&v) {
+                site.insert(v);
+            }
+        }
+    }
+    let site_secs: Vec<u64> = site.iter().map(|v| *v as u64).collect();
+    let site_nanos: Vec<u32> = site.iter().filter(|v| **v <= u32::MAX as i128).map(|v| *v as u32).collect();
+    Lattice { window: w as u64, bases, u64s, i64s: i64s.into_iter().collect(), nanos, json_ints, site_window: sw as u64, site_secs, site_nanos }
 }
 
 // ---------------------------------------------------------------------------------------------
@@ -739,6 +970,9 @@ enum Unit {
     DateTimeSecs(i64),
     JsonDuration(String),
     JsonInstantSecs(String),
+    SiteAfterSecs(u64, TimeApi),
+    SiteAtSecs(u64, bool, TimeApi),
+    SiteNowSecs(u64, Wire),
 }
 
 #[derive(Default)]
@@ -871,6 +1105,21 @@ fn explore_unit(u: &Unit, l: &Lattice) -> Agg {
                 explore_case(Case::DateTimeToInstant { secs, nanos }, &mut a);
             }
         }
+        Unit::SiteAfterSecs(secs, api) => {
+            for &nanos in &l.site_nanos {
+                explore_case(Case::NotifyAfterSite { secs, nanos, api }, &mut a);
+            }
+        }
+        Unit::SiteAtSecs(secs, before_epoch, api) => {
+            for &nanos in &l.site_nanos {
+                explore_case(Case::NotifyAtSite { secs, nanos, before_epoch, api }, &mut a);
+            }
+        }
+        Unit::SiteNowSecs(secs, wire) => {
+            for &nanos in &l.site_nanos {
+                explore_case(Case::NowSite { secs, nanos, wire }, &mut a);
+            }
+        }
         Unit::JsonDuration(text) => explore_case(Case::JsonToDuration { text }, &mut a),
         Unit::JsonInstantSecs(seconds) => {
             for nanos in &l.json_ints {
@@ -937,6 +1186,15 @@ pub fn run(tier: Tier) -> i32 {
     for &v in &l.i64s {
         units.push(Unit::TimeDeltaSecs(v));
         units.push(Unit::DateTimeSecs(v));
+    }
+    for &v in &l.site_secs {
+        for api in [TimeApi::CapabilityCallback, TimeApi::CapabilityAsync, TimeApi::Command] {
+            units.push(Unit::SiteAfterSecs(v, api));
+            units.push(Unit::SiteAtSecs(v, false, api));
+            units.push(Unit::SiteAtSecs(v, true, api));
+        }
+        units.push(Unit::SiteNowSecs(v, Wire::Bincode));
+        units.push(Unit::SiteNowSecs(v, Wire::Json));
     }
     for t in &l.json_ints {
         units.push(Unit::JsonDuration(t.clone()));
@@ -1047,6 +1305,8 @@ pub fn run(tier: Tier) -> i32 {
             "B_i64 (chrono seconds, +-B and i64::MIN)": verbatim(&l.i64s),
             "B_u32 (sub-second nanos, B up to 2^32-1, includes invalid >= 10^9 and the leap-second range)": verbatim(&l.nanos),
             "json number texts": l.json_ints,
+            "S_u64 (payload sites)": verbatim(&l.site_secs),
+            "S_u32 (payload sites)": verbatim(&l.site_nanos),
             "products": {
                 "duration-new / from-millis / from-secs / duration-to-std / duration-to-timedelta": "B_u64",
                 "std-duration-to-duration": "std::time::Duration::new(B_u64, B_u32)",
@@ -1057,6 +1317,10 @@ pub fn run(tier: Tier) -> i32 {
                 "instant-to-datetime": "Instant deserialized from {bincode, JSON} of (B_u64, B_u32); B_u32 holds 0, 1, 10^9-1, 10^9, 10^9+1, 2*10^9-1, 2*10^9, 2^32-1 (each +-window) and B_u64 holds seconds congruent 59 mod 60 next to every base as well as others",
                 "datetime-to-instant": "DateTime::from_timestamp(B_i64, B_u32) where chrono accepts it (includes MIN_UTC, MAX_UTC and leap-second representations); the way back to DateTime is taken for every Instant that comes out, leap seconds included",
                 "json-to-duration / json-to-instant": "json number texts (x json number texts)",
+                "notify-after-site/{capability-api, command-api}": "the real notify_after(std Duration::new(S_u64, S_u32)) through the capability API (callback and async) and the command API; the emitted TimeRequest::NotifyAfter payload",
+                "notify-at-site/{capability-api, command-api}": "the real notify_at(UNIX_EPOCH {+,-} Duration::new(S_u64, S_u32 < 10^9)) through the same three APIs; the emitted TimeRequest::NotifyAt payload",
+                "time-now-site/command-api": "command API Time::now() answered with TimeResponse::Now{Instant deserialized from {bincode, JSON} of (S_u64, S_u32)}; the SystemTime handed to the app (the capability API hands the response over unconverted)",
+                "S_u64, S_u32": format!("the same bases with window +-{}", l.site_window),
             },
         },
         "distinct_outcomes": distinct_outcomes,
